@@ -219,7 +219,7 @@ pub fn check(id: &str, tier: Tier) -> i32 {
     if run.stopped() {
       return;
     }
-    let xc = ExploreCfg { bound: *bound, hb, drain: id == "C02" || id == "C07", prop_of, max_execs };
+    let xc = ExploreCfg { bound: *bound, hb, drain: id == "C02" || id == "C07", prop_of, max_execs, cache: false };
     let st = explore(&run, h, &xc, id);
     execs.fetch_add(st.execs, Ordering::Relaxed);
     events.fetch_add(st.events, Ordering::Relaxed);
@@ -250,15 +250,16 @@ pub fn calib() -> i32 {
     ("B16 || B16 || Dp", vec![prog(P::B16, 1), prog(P::B16, 2), prog(P::Dp, 0)]),
     ("B16,D || B24 || U64", vec![prog(P::B16D, 0), prog(P::B24, 1), prog(P::U64, 2)]),
   ] {
-    for bound in 0..=6u8 {
-      if progs.len() == 3 && bound > 4 {
+    let bounds: Vec<u8> = if std::env::var("CALIB_CACHE").is_ok() { vec![2, 3, 4, 6, 255] } else { (0..=6).collect() };
+    for bound in bounds {
+      if progs.len() == 3 && bound > 4 && std::env::var("CALIB_CACHE").is_err() {
         continue;
       }
       let h = Harness { fl: Fl::Optimistic, unify: true, min_seg: 8, cap: 256, shape: 3, progs: progs.clone(), own_arenas: false, leave: 0, odd: 0 };
       let t0 = std::time::Instant::now();
-      let xc = ExploreCfg { bound, hb: false, drain: true, prop_of: prop_c02, max_execs: 50_000_000 };
+      let xc = ExploreCfg { bound, hb: false, drain: true, prop_of: prop_c02, max_execs: 50_000_000, cache: std::env::var("CALIB_CACHE").is_ok() };
       let st = explore(&run, &h, &xc, "calib");
-      println!("{:24} bound {}: {:>10} schedules {:>12} events {:.2}s max_choice_points {}", name, bound, st.execs, st.events, t0.elapsed().as_secs_f64(), st.max_choices);
+      println!("{:24} bound {:3}: {:>10} schedules {:>12} events {:.2}s max_choice_points {} states {} pruned {}", name, bound, st.execs, st.events, t0.elapsed().as_secs_f64(), st.max_choices, st.states, st.pruned);
       if t0.elapsed().as_secs_f64() > 60.0 {
         break;
       }
@@ -300,7 +301,7 @@ pub fn c03_concurrent(run: &Run, thorough: bool) {
   let execs = AtomicU64::new(0);
   let events = AtomicU64::new(0);
   par_for_each(&items, |_, (h, bound)| {
-    let xc = ExploreCfg { bound: *bound, hb: false, drain: false, prop_of: prop_c03, max_execs: 5_000_000 };
+    let xc = ExploreCfg { bound: *bound, hb: false, drain: false, prop_of: prop_c03, max_execs: 5_000_000, cache: false };
     let st = explore(run, h, &xc, "C03");
     execs.fetch_add(st.execs, Ordering::Relaxed);
     events.fetch_add(st.events, Ordering::Relaxed);
